@@ -58,6 +58,14 @@ OuterTags(env, T) ==
     [] T.k = "CHOICE" -> UNION {OuterTags(env, AllComps(T)[i].t) : i \in DOMAIN AllComps(T)}
     [] OTHER -> {UniversalTag(T)}
 
+\* the tag that the encoding of value v of type T actually starts with
+RECURSIVE ValueTag(_, _, _)
+ValueTag(env, T, v) ==
+  CASE T.k = "TAGGED" -> Tag(T.cl, T.num)
+    [] T.k = "REF" -> ValueTag(env, env[T.n], v)
+    [] T.k = "CHOICE" -> ValueTag(env, CompByName(T, AltOf(v)).t, AltVal(v))
+    [] OTHER -> UniversalTag(T)
+
 MinTag(S) == CHOOSE t \in S : \A u \in S : u = t \/ TagLess(t, u)
 
 \* positions of a sequence sorted by a key with a strict order; stable
